@@ -8,7 +8,10 @@ V = os.path.dirname(os.path.dirname(os.path.abspath(__file__)))
 ROUND2 = os.environ.get('ROUND2', '0') == '1'
 ROUND3 = os.environ.get('ROUND3', '0') == '1'
 ROUND4 = os.environ.get('ROUND4', '0') == '1'
-if ROUND4:     # fourth round M16..M20: suffixes h, i
+ROUND5 = os.environ.get('ROUND5', '0') == '1'
+if ROUND5:     # fifth, cross-property round M21..M23: ids as given (Cxx-j, Cxx-k, ...)
+    cands = sorted(glob.glob('/tmp/M2[1-3]_out/C??-?'))
+elif ROUND4:     # fourth round M16..M20: suffixes h, i
     cands = sorted(glob.glob('/tmp/M1[6-9]_out/C??-?') + glob.glob('/tmp/M20_out/C??-?'))
 elif ROUND3:     # third round M11..M15: suffixes e, f (and g for an extra)
     cands = sorted(glob.glob('/tmp/M1[1-5]_out/C??-?') + glob.glob('/tmp/M1[1-5]_out/C??-extra'))
@@ -20,6 +23,8 @@ else:
 
 def sid_of(c):
     b = os.path.basename(c)
+    if ROUND5:
+        return b
     if ROUND4:
         b = b[:-1] + {'a': 'h', 'b': 'i'}[b[-1]]
     elif ROUND3:
